@@ -175,8 +175,13 @@ func (fr *Frame) shiftCount(st *State, b Val, w int, at ssa.Instruction, pos tok
 			}
 			return BV(n, w)
 		}
-		big := IGe(y, IntT(int64(w)))
-		return Ite(big, BV(int64(w), w), fr.intToBV(y, w))
+		// exact conversion of the small count: a case split over 0..w-1 (the uninterpreted bridge
+		// cannot be evaluated by the solver for a symbolic count)
+		cnt := BV(int64(w), w)
+		for k := w - 1; k >= 0; k-- {
+			cnt = Ite(Eq(y, IntT(int64(k))), BV(int64(k), w), cnt)
+		}
+		return fr.ctx.Def("shcnt", cnt)
 	}
 	yw := sortWidth(y.Sort)
 	if at != nil && isSigned(b.T) {
@@ -348,10 +353,11 @@ func (fr *Frame) wideViaBV(st *State, op token.Token, a, b Val, opT, resT types.
 
 func (fr *Frame) stringEq(st *State, a, b Val) Term {
 	h := fr.heap(st, elemHeap(types.Typ[types.Uint8], ""), byteHeapSort)
-	j := Term{"j!se", SInt}
-	body := Implies(InRange(j, IntT(0), a.Len()),
-		Eq(Select(Select(h, a.Obj()), IAdd(a.Off(), j)), Select(Select(h, b.Obj()), IAdd(b.Off(), j))))
-	return And(Eq(a.Len(), b.Len()), Forall([]Term{j}, body))
+	fr.top.nbound++
+	j := Term{fmt.Sprintf("j!se%d", fr.top.nbound), SInt}
+	// same normal form as contract quantifiers (absolute index into the first operand)
+	body := Eq(Select(Select(h, a.Obj()), IAdd(a.Off(), j)), Select(Select(h, b.Obj()), IAdd(b.Off(), j)))
+	return And(Eq(a.Len(), b.Len()), forallRange(j, IntT(0), a.Len(), body, nil))
 }
 
 func (fr *Frame) stringConcat(st *State, a, b Val, t types.Type) Val {
